@@ -7,6 +7,8 @@ byte-comparable with the answers of ml/modelrun.  Started as a subprocess with P
 import os
 import sys
 
+sys.path.insert(0, os.path.dirname(os.path.abspath(__file__)))
+
 flags = 7
 args = sys.argv[1:]
 if "--flags" in args:
@@ -244,6 +246,26 @@ def handle(line: str) -> str:
         except Exception as e:  # noqa
             return "ERR " + err_name(e)
         return ("OK " + show_tokens(ts)).strip()
+    if cmd == "PARSE":
+        try:
+            from metasequoia_sql import SQLParser, SQLType
+            import pydump
+            mb, entry, dialect = words[1] == "1", words[2], words[3]
+            text = "".join(chr(int(w)) for w in words[4:])
+            if mb:
+                from metasequoia_sql.plugins.mybaitis import SQLParserMyBatis as P
+            else:
+                P = SQLParser
+            fn = getattr(P, "parse_" + entry)
+            try:
+                v = fn(text, sql_type=SQLType[dialect])
+            except RecursionError:
+                return "ERR Recursion"
+            except Exception as e:  # noqa
+                return "ERR " + err_name(e)
+            return "OK " + pydump.dump(v)
+        except Exception as e:  # noqa
+            return "BAD-REQUEST " + repr(e)
     if cmd == "CURSOR":
         try:
             return run_cursor(words[1:])
